@@ -86,10 +86,11 @@ def run(chk):
         base = np.repeat(np.arange(K), per)
         perm = g.permutation(len(base))
         Xc, base = Xc[perm], base[perm]                     # unsorted labels
-        kind = r.choice(["0..K-1", "shifted", "negative", "noncontiguous", "permuted ids"])
+        kind = r.choice(["0..K-1", "shifted", "negative", "noncontiguous", "permuted ids", "64-bit ids"])
         names = {"0..K-1": list(range(K)), "shifted": [5 + k for k in range(K)], "negative": [-1 - k for k in range(K)],
-                 "noncontiguous": [3 + 7 * k for k in range(K)], "permuted ids": list(g.permutation(K))}[kind]
-        y = np.array([names[b] for b in base])
+                 "noncontiguous": [3 + 7 * k for k in range(K)], "permuted ids": list(g.permutation(K)),
+                 "64-bit ids": [2 ** 60 + k for k in range(K)]}[kind]       # hashed subject ids: distinct integers that binary64 cannot tell apart
+        y = np.array([names[b] for b in base], dtype=np.int64)
         ctxc = {"X": hexlist(Xc), "y": [int(a) for a in y], "shape": list(Xc.shape), "labels": kind}
         chk.count(1, key=("wccn", D, K, kind))
         try:
